@@ -18,6 +18,7 @@ RULE = ("for each corpus script and each k = 1..N (N = back-end calls of the fau
         "= distinct (script, failing operation, call site = step kind, reply codes) signatures; non-trivial = the "
         "fault actually fired.")
 RULE += ("  " + 'Also: bursts of commands with exactly one user of the failing operation (replies judged by position); a bare PathIOError; time-outs as failures; every other probe re-uses the passive listener of the failed transfer.')
+RULE += ("  " + 'Also: the failed upload command is simply given again and must work.')
 ASSUMPTIONS = [
     "faults are raised inside aioftp's own universal_exception wrapper by a spying subclass of the shipped back end",
     "a data connection must be closed by the server only when the transfer was started (1xx mark sent)",
